@@ -307,6 +307,21 @@ func main() {
 		return true
 	})
 
+	// calls that set a file's times (the replacement written by Write must carry the time of the write: reload
+	// decides by (mtime, size), a carried-over mtime hides a size-preserving write-back)
+	var setsTimes []string
+	ast.Inspect(pf, func(n ast.Node) bool {
+		if c, ok := n.(*ast.CallExpr); ok {
+			if s, ok := c.Fun.(*ast.SelectorExpr); ok {
+				switch s.Sel.Name {
+				case "Chtimes", "Lchtimes", "Utimes", "UtimesNano", "UtimesNanoAt", "Futimes", "Futimesat", "Utime", "Lutimes":
+					setsTimes = append(setsTimes, exprString(c.Fun)+" at "+fset.Position(c.Pos()).String())
+				}
+			}
+		}
+		return true
+	})
+
 	// ---- FileConfig.go (+ any other non-test file of the package that declares methods of FileConfig)
 	files, _ := filepath.Glob(filepath.Join(dir, "*.go"))
 	sort.Strings(files)
@@ -462,6 +477,8 @@ func main() {
 	fmt.Fprintf(&b, "def writeSeq : List FsKind := [%s]\n\n", strings.Join(ks, ", "))
 	fmt.Fprintf(&b, "/-- calls the translator could not classify (must be empty) -/\ndef writeSeqUnknown : List String := [%s]\n\n", joinQuoted(bad))
 	fmt.Fprintf(&b, "/-- properties.Must* calls in DefaultFileParser.go (their error handler is log.Fatal) -/\ndef mustLoadCalls : List String := [%s]\n\n", joinQuoted(mustLoad))
+
+	fmt.Fprintf(&b, "/-- calls in DefaultFileParser.go that set a file's access/modification times (Chtimes, Utimes, …) -/\ndef writeSetsTimes : List String := [%s]\n\n", joinQuoted(setsTimes))
 
 	b.WriteString("inductive Acc where\n  | read | write\n  deriving Repr, DecidableEq\n\n")
 	b.WriteString("inductive Held where\n  | none | r | w\n  deriving Repr, DecidableEq\n\n")
